@@ -119,7 +119,7 @@ func c20ideal(cs c20case) (map[string]*big.Rat, error) {
 		enum.Sequences(cs.N, cs.K, func(seq []int) {
 			out[fmt.Sprint(seq)] = p
 		})
-	case "prune-random", "prune-random-keep":
+	case "prune-random", "prune-random-keep", "prune-random-keep-multi":
 		k := cs.K
 		if k > cs.N {
 			k = cs.N
@@ -212,18 +212,24 @@ func c20body(cs c20case) (func(), func() (string, error)) {
 			}
 			return "{" + strings.Join(s, ",") + "}", nil
 		}
-	case "prune-random", "prune-random-keep":
+	case "prune-random", "prune-random-keep", "prune-random-keep-multi":
 		var res cliRun
 		args := []string{"prune", "-i", "@/in.nw", "--random", fmt.Sprint(cs.K), "--seed", "1"}
-		if cs.Driver == "prune-random-keep" {
+		if cs.Driver != "prune-random" {
 			args = append(args, "-r")
 		}
-		body := cliBody(args, "", map[string]string{"in.nw": c20tipTree(cs.N) + "\n"}, nil, &res)
+		in := c20tipTree(cs.N) + "\n"
+		if cs.Driver == "prune-random-keep-multi" {
+			// a tree with fewer than k tips comes first in the file (all of its tips are kept); the second tree is observed
+			in = "(s0:1,s1:1,s2:1);\n" + in
+		}
+		body := cliBody(args, "", map[string]string{"in.nw": in}, nil, &res)
 		return body, func() (string, error) {
 			if res.Err != "" {
 				return "", fmt.Errorf("command failed: %s", res.Err)
 			}
-			m, err := rm.ParseNewick(strings.TrimSpace(res.Stdout))
+			outLines := strings.Split(strings.TrimSpace(res.Stdout), "\n")
+			m, err := rm.ParseNewick(outLines[len(outLines)-1])
 			if err != nil {
 				return "", fmt.Errorf("output %q: %v", res.Stdout, err)
 			}
@@ -478,6 +484,9 @@ func c20cases(quick bool) []c20case {
 		for k := 3; k <= n; k++ {
 			cs = append(cs, c20case{Driver: "prune-random-keep", N: n, K: k})
 		}
+		for k := 4; k < n; k++ {
+			cs = append(cs, c20case{Driver: "prune-random-keep-multi", N: n, K: k})
+		}
 	}
 	for n := 3; n <= maxN; n++ {
 		cs = append(cs, c20case{Driver: "shuffletips", N: n})
@@ -512,7 +521,7 @@ func init() {
 			"oracle: every member of the ideal outcome space (k-subsets, k-tuples, permutations, neighbour orderings, labelled binary topologies from an independent enumerator) has probability exactly 1/|space|; non-trivial = case with >= 2 outcomes",
 		Assumptions: []string{"math/rand itself is ideal: Intn(n) uniform on 0..n-1, Perm(n) a uniform permutation (drawn as successive uniform picks by the runtime), draws independent",
 			"rand.Float64 (branch lengths of generated trees) is kept at its default answer: lengths do not influence the topology"},
-		Require: []string{"cases_sample", "cases_sample-replace", "cases_prune-random", "cases_prune-random-keep", "cases_shuffletips", "cases_rotate", "cases_uniformtree", "cases_uniformtree-cli"},
+		Require: []string{"cases_sample", "cases_sample-replace", "cases_prune-random", "cases_prune-random-keep", "cases_prune-random-keep-multi", "cases_shuffletips", "cases_rotate", "cases_uniformtree", "cases_uniformtree-cli"},
 		Run: func(c *Ctx) {
 			defer cliCleanup()
 			for _, cs := range c20cases(c.Quick()) {
